@@ -2,6 +2,7 @@ package main
 
 import (
 	"fmt"
+	"os"
 	"sort"
 
 	"go.flow.arcalot.io/pluginsdk/schema"
@@ -17,6 +18,10 @@ import (
 //	    order-so: the scope is wrapped in a StepOutputSchema (schema.NewStepOutputSchema) and the namespaces
 //	    are applied, and ValidateReferences is asked, THROUGH that step output; the reverse-order run applies
 //	    them to the scope directly (the metamorphic partner of the wrapper).
+//	    order-rb: the scope (and INLINED) is built through the constructors, DESCRIBED (SelfSerialize) and REBUILT
+//	    from the description by schema.UnserializeScope — a tree none of whose scopes went through NewScopeSchema:
+//	    the inner scopes are linked only by the ApplySelf of the outermost one.  Links, ValidateReferences and the
+//	    operations are observed on the rebuilt tree; the reverse-order run uses the code-built tree (its partner).
 //	    OP = (u RAW) | (rt RAW) | (vs NATIVE): Validate and Serialize of a native value (e.g. one that carries
 //	    the field of a DISABLED property: Unserialize refuses those, Validate / Serialize still go through its type).
 //	    INLINED is SCHEMA with every non-recursive self-namespace reference replaced by its target.
@@ -84,7 +89,46 @@ func c14Walk(t schema.Type, path string, stack []c14Frame, exts map[string]*sche
 			}
 		}
 		*out = append(*out, c14Link{path, x.ID(), x.Namespace(), target})
+	default:
+		// other instantiations of the container types (as a loader may build them): through their accessors
+		if l, ok := t.(c12HasItems); ok {
+			c14Walk(l.Items(), path+"/i", stack, exts, out)
+		} else if m, ok := t.(c12HasKV); ok {
+			c14Walk(m.Keys(), path+"/k", stack, exts, out)
+			c14Walk(m.Values(), path+"/v", stack, exts, out)
+		} else if o, ok := t.(c12TypesS); ok {
+			for k, m := range o.Types() {
+				c14Walk(m, path+"/m:"+k, stack, exts, out)
+			}
+		} else if o, ok := t.(c12TypesI); ok {
+			for k, m := range o.Types() {
+				c14Walk(m, fmt.Sprintf("%s/m:%d", path, k), stack, exts, out)
+			}
+		}
 	}
+}
+
+// c14Rebuild: the scope described and rebuilt from its description (nil: SelfSerialize or UnserializeScope failed
+// or panicked).
+func c14Rebuild(t schema.Type) (out schema.Type) {
+	defer func() {
+		if r := recover(); r != nil {
+			out = nil
+		}
+	}()
+	sc, ok := t.(*schema.ScopeSchema)
+	if !ok {
+		return nil
+	}
+	d, err := sc.SelfSerialize()
+	if err != nil {
+		return nil
+	}
+	rb, err := schema.UnserializeScope(d)
+	if err != nil {
+		return nil
+	}
+	return rb
 }
 
 // c14Applier: what ApplyNamespace / ValidateReferences are called on — the schema itself, or the
@@ -233,6 +277,12 @@ func runC14(p *sx.Node) *sx.Node {
 	if s == nil {
 		return sx.L(sx.A("r"), sx.A("build-panic"))
 	}
+	rebuilt := orderN.Head() == "order-rb"
+	if rebuilt {
+		if s = c14Rebuild(s); s == nil {
+			return sx.L(sx.A("r"), sx.A("rebuild-failed"))
+		}
+	}
 	// order-so: everything that links or asks about links goes through a step output wrapping the scope
 	wrap := func(x schema.Type) c14Applier {
 		if sc, isScope := x.(*schema.ScopeSchema); isScope && orderN.Head() == "order-so" {
@@ -266,6 +316,11 @@ func runC14(p *sx.Node) *sx.Node {
 	if si == nil {
 		return out.Append(sx.L(sx.A("inl"), sx.A("build-panic")))
 	}
+	if rebuilt {
+		if si = c14Rebuild(si); si == nil {
+			return out.Append(sx.L(sx.A("inl"), sx.A("rebuild-failed")))
+		}
+	}
 	if _, ok3 := c14ApplyVia(si, wrap(si), exts, order); !ok3 {
 		return out.Append(sx.L(sx.A("inl"), sx.A("panic")))
 	}
@@ -296,7 +351,7 @@ func (g *c14gen) scalar() *sx.Node {
 	case 2:
 		return dBool()
 	case 3:
-		return dEnumStrD(nil, []string{"x", "y"}, nil)
+		return dEnumStrD(nil, []string{"x", "y"}, []string{"ex", "why"}) // named values: an enum whose values carry no display cannot be described (D29)
 	}
 	return dInt(ip(0), ip(50), nil)
 }
@@ -504,6 +559,30 @@ func throughStepOutput(order *sx.Node) *sx.Node {
 	return o
 }
 
+// rebuiltFromDescription: the same order, on the scope rebuilt from its description (order-rb); the plain order
+// where the scope cannot be described at all (C09's known findings: nothing to rebuild from).
+func rebuiltFromDescription(s, inl, order *sx.Node) *sx.Node {
+	for _, n := range []*sx.Node{s, inl} {
+		ok := false
+		func() {
+			defer func() { _ = recover() }()
+			if sc, isScope := buildSchema(n).(*schema.ScopeSchema); isScope {
+				_, err := sc.SelfSerialize()
+				ok = err == nil
+				if err != nil && os.Getenv("VERIF_DEBUG") != "" {
+					fmt.Fprintf(os.Stderr, "c14: not describable: %v\n", err)
+				}
+			}
+		}()
+		if !ok {
+			return order
+		}
+	}
+	o := sx.L(sx.A("order-rb"))
+	o.Append(order.List[1:]...)
+	return o
+}
+
 // c14Enable: the descriptor with every property enabled (used only to MAKE native values that carry the
 // fields of disabled properties).
 func c14Enable(n *sx.Node) *sx.Node {
@@ -561,6 +640,12 @@ func c14Case(ext, s *sx.Node, order *sx.Node, ops []*sx.Node) *sx.Node {
 	return sx.L(sx.A("c14"), mkEnv(ext, s, ops), s, order, inl, l)
 }
 
+// c14CaseRB: the case on the scope REBUILT from its description.
+func c14CaseRB(ext, s *sx.Node, order *sx.Node, ops []*sx.Node) *sx.Node {
+	inl := c14Inline(s, map[string]*sx.Node{}, map[string]bool{})
+	return c14Case(ext, s, rebuiltFromDescription(s, inl, order), ops)
+}
+
 func genC14(r *Rng, tier string, emit func(*sx.Node)) {
 	ext := c14ExtTables(r)
 	// (1) fixed cases: shadowing, every container kind, recursion, the one-of/namespace interaction
@@ -600,6 +685,33 @@ func genC14(r *Rng, tier string, emit func(*sx.Node)) {
 	emit(c14Case(ext, shadow, throughStepOutput(orderSx("n1", "n2")), shadowOps))
 	emit(c14Case(ext, shadow, throughStepOutput(orderSx("n2")), shadowOps[:3]))
 	emit(c14Case(ext, containers, throughStepOutput(orderSx("n2", "n1")), contOps))
+	// the same trees REBUILT from their descriptions (no scope of the tree went through NewScopeSchema): the nested scope
+	// whose object ids A, B collide with the outer ones, every container kind, partial application
+	emit(c14CaseRB(ext, shadow, orderSx("n1", "n2"), shadowOps))
+	emit(c14CaseRB(ext, shadow, orderSx("n2"), shadowOps[:3]))
+	emit(c14CaseRB(ext, containers, orderSx("n2", "n1"), contOps))
+	// scopes nested DIRECTLY as property types three deep, every level with its own A and B; under a list, a map and as a
+	// one-of member as well
+	lvl3 := dScope("A", dObject("A", false, propD{name: "v3", t: dInt(nil, nil, nil)}, propD{name: "b", t: dRef("B", "")}),
+		dObject("B", false, propD{name: "w3", t: dBool()}))
+	lvl2 := dScope("A", dObject("A", false, propD{name: "v2", t: dInt(nil, nil, nil)}, propD{name: "b", t: dRef("B", "")}, propD{name: "s", t: lvl3},
+		propD{name: "ls", t: dList(lvl3, nil, nil)}),
+		dObject("B", false, propD{name: "w2", t: dString(nil, nil, nil)}, propD{name: "a", t: dRef("A", "")}))
+	lvl1 := dScope("A", dObject("A", false, propD{name: "v1", t: dInt(nil, nil, nil)}, propD{name: "s", t: lvl2}, propD{name: "b", t: dRef("B", "")},
+		propD{name: "ms", t: dMap(dString(nil, nil, nil), lvl3, nil, nil)},
+		propD{name: "o", t: dOneOf(false, "kind", false, memberD{skey: "in", t: lvl3}, memberD{skey: "b", t: dRef("B", "")})}),
+		dObject("B", false, propD{name: "w1", t: dInt(nil, nil, nil)}))
+	v3 := vM(tAnyMap, vS("v3"), vI("i64", 3), vS("b"), vM(tAnyMap, vS("w3"), vB(true)))
+	nestOps := []*sx.Node{
+		op("rt", vM(tAnyMap, vS("v1"), vI("i64", 1), vS("b"), vM(tAnyMap, vS("w1"), vI("i64", 1)),
+			vS("s"), vM(tAnyMap, vS("v2"), vI("i64", 2), vS("b"), vM(tAnyMap, vS("w2"), vS("two")), vS("s"), v3, vS("ls"), vSl(tAnySlice, v3)))),
+		op("rt", vM(tAnyMap, vS("ms"), vM(tAnyMap, vS("k"), v3), vS("o"), vM(tAnyMap, vS("kind"), vS("in"), vS("b"), vM(tAnyMap, vS("w3"), vB(false))))),
+		op("rt", vM(tAnyMap, vS("s"), vM(tAnyMap, vS("b"), vM(tAnyMap, vS("w1"), vI("i64", 1))))),                            // the OUTER B's shape inside: must fail
+		op("rt", vM(tAnyMap, vS("s"), vM(tAnyMap, vS("s"), vM(tAnyMap, vS("b"), vM(tAnyMap, vS("w2"), vS("level 2 shape")))))), // must fail
+		op("rt", vM(tAnyMap, vS("o"), vM(tAnyMap, vS("kind"), vS("b"), vS("w1"), vI("i64", 5)))),
+	}
+	emit(c14Case(nil, lvl1, orderSx(), nestOps))
+	emit(c14CaseRB(nil, lvl1, orderSx(), nestOps))
 	// references under DISABLED properties (self and external namespace, bare and under a list), and native data that
 	// carries those fields: Validate / Serialize still go through the property's type
 	disabled := dScope("A",
@@ -622,6 +734,7 @@ func genC14(r *Rng, tier string, emit func(*sx.Node)) {
 	emit(c14Case(ext, disabled, orderSx("n1", "n2"), disOps))
 	emit(c14Case(ext, disabled, throughStepOutput(orderSx("n2", "n1")), disOps))
 	emit(c14Case(ext, disabled, orderSx("n1"), disOps[:5])) // n2 never applied: the disabled x stays unlinked, ValidateReferences must fail
+	emit(c14CaseRB(ext, disabled, orderSx("n2", "n1"), disOps))
 	// a one-of whose members live in an external namespace (the walk reads Properties() of every member)
 	oneofExt := dScope("A", dObject("A", false,
 		propD{name: "o", t: dOneOf(false, "kind", false, memberD{skey: "x", t: dRef("X", "n1")}, memberD{skey: "z", t: dRef("Z", "n2")})}))
@@ -653,6 +766,7 @@ func genC14(r *Rng, tier string, emit func(*sx.Node)) {
 	emit(c14Case(nil, d11, orderSx(), []*sx.Node{op("u", vS("foo"))}))
 	emit(c14Case(nil, recA, orderSx(), recOps))
 	emit(c14Case(nil, mutual, orderSx(), mutOps))
+	emit(c14CaseRB(nil, mutual, orderSx(), mutOps))
 	// (2) generated scope trees
 	n := 500
 	if tier == "thorough" {
@@ -683,10 +797,15 @@ func genC14(r *Rng, tier string, emit func(*sx.Node)) {
 		if r.Bool() {
 			order = orderSx("n2", "n1")
 		}
-		if r.Bool() {
-			order = throughStepOutput(order)
+		// a third as built, a third through a step output, a third rebuilt from the description
+		switch r.Intn(3) {
+		case 0:
+			emit(c14Case(ext, s, order, ops))
+		case 1:
+			emit(c14Case(ext, s, throughStepOutput(order), ops))
+		default:
+			emit(c14CaseRB(ext, s, order, ops))
 		}
-		emit(c14Case(ext, s, order, ops))
 	}
 }
 
